@@ -501,6 +501,15 @@ func c11SrcOps(u *c11Universe) []c11SrcOp {
 			ops = append(ops, c11SrcOp{"del(m[" + ref.Source(k) + "])", func(m ref.Value) (ref.Value, bool) { r, _ := ref.MapDelete(m, k); return r, true }})
 		}
 	}
+	// keys given through a variable of an outer scope, a parameter or a loop variable, which changes afterwards:
+	// the entry keeps the key it was inserted under
+	src := func(i int) string { return ref.Source(ks[i%len(ks)]) }
+	key := func(i int) ref.Value { return ks[i%len(ks)] }
+	ops = append(ops, c11SrcOp{"kv = " + src(2) + "; func ins() { m[kv] = 6 }; ins(); kv = " + src(4), func(m ref.Value) (ref.Value, bool) { return ref.MapSet(m, key(2), ref.Int(6)), true }})
+	ops = append(ops, c11SrcOp{"kv = " + src(0) + "; func() { func() { m[kv] = 5; kv = " + src(3) + " }() }()", func(m ref.Value) (ref.Value, bool) { return ref.MapSet(m, key(0), ref.Int(5)), true }})
+	ops = append(ops, c11SrcOp{"insp = func(kp) { m[kp] = 4; kp = " + src(1) + " }; insp(" + src(6) + ")", func(m ref.Value) (ref.Value, bool) { return ref.MapSet(m, key(6), ref.Int(4)), true }})
+	ops = append(ops, c11SrcOp{"kv = " + src(2) + "; dl = () => del(m[kv]); dl(); kv = " + src(0), func(m ref.Value) (ref.Value, bool) { r, _ := ref.MapDelete(m, key(2)); return r, true }})
+	ops = append(ops, c11SrcOp{"kv = " + src(5) + "; func() { m = m + {kv: 3}; kv = " + src(1) + " }()", func(m ref.Value) (ref.Value, bool) { return ref.MapSet(m, key(5), ref.Int(3)), true }})
 	ops = append(ops, c11SrcOp{"m = m + {}", func(m ref.Value) (ref.Value, bool) { return m, true }})
 	two := ref.NewMap(ref.Pair{K: ks[1], V: ref.Int(8)}, ref.Pair{K: ks[5], V: ref.Int(8)})
 	ops = append(ops, c11SrcOp{"m = m + " + ref.Source(two), func(m ref.Value) (ref.Value, bool) { return ref.MapAppend(m, two), true }})
